@@ -18,6 +18,14 @@ from . import c02
 
 # alternative index tuples per default tuple: permuted, shifted letters (the
 # contracted indices inside the definitions use low letters), numbered names
+COMPOSITES = ("t2eri_1", "t2eri_2", "t2eri_3", "t2eri_4", "t2eri_5",
+              "t2eri_6", "t2eri_7", "t2eri_A", "t2eri_B", "t2sq")
+
+# tensor symbols of lower composites inside once expanded pia / pib:
+# symbol -> (registered name, kind code, number of upper indices) as in TabKey
+SUBNAMES = {"t2eri1": ("t2eri_1", 1, 2), "t2eri2": ("t2eri_2", 4, 4),
+            "t2eri6": ("t2eri_6", 1, 2), "t2eri7": ("t2eri_7", 4, 4)}
+
 ALT = {
     "ijab": ["ijab", "jkbc", "klcd", "jiba", "i3j3a3b3", "lkdc", "ijcd"],
     "ia": ["ia", "jb", "kc", "i2a2", "ld"],
@@ -203,6 +211,54 @@ def run(chk):
                 chk.add_event(ev)
     chk.judge(events=chk.events[first:], chunk=60)
 
+    # ---- composite integral-amplitude intermediates against the contraction
+    # each name stands for (CompositeVal in spec/Contracts.tla) ---------------
+    first = len(chk.events)
+    CALT = {"ijka": ["ijka", "jikb", "klmc", "lkjb", "i2j2k2a2", "jkla"],
+            "ijab": ["ijab", "klcd", "jiba", "klab", "ijcd", "i1j1a1b1"],
+            "iabc": ["iabc", "jbcd", "kcba", "jdab", "i4a4b4c4", "kbcd"],
+            "iajb": ["iajb", "kcjb", "jbia", "kcld", "i3a3j3b3", "jakb"]}
+    for name, it in avail.items():
+        if it.itmd_type != "misc" or name not in COMPOSITES:
+            continue
+        default = "".join(it.default_idx)
+        alts = CALT[default]
+        if quick:
+            alts = alts[:2] + r.sample(alts[2:], 2)
+        for idx in alts:
+            for full in (False, True):
+                what = (f"Intermediates().{name}.expand_itmd('{idx}', "
+                        f"fully_expand={full}) vs the contraction it names")
+                res, exc = guarded(it.expand_itmd, idx, False, full)
+                chk.count("expansions")
+                if exc:
+                    chk.report_direct(f"itmd:{name}:exception", f"{what} "
+                                      f"raised {exc['type']}: {exc['msg']}", exc)
+                    continue
+                expr = build.expand_mul(Expr(res.sympy, real=True))
+                try:
+                    ev, ctx = build.valpres(
+                        expr, expr, op="composite", key=f"itmd:{name}",
+                        what=what, tgt_syms=get_symbols(idx),
+                        names=dict(names), global_models=refs)
+                except adapter.Unsupported as u:
+                    chk.machinery_errors.append(f"{what}: {u}")
+                    continue
+                ev["pre"] = []
+                sub = [{"nid": k + 1, "name": SUBNAMES[n][0],
+                        "kc": SUBNAMES[n][1], "nu": SUBNAMES[n][2]}
+                       for k, n in enumerate(ev["names"]) if n in SUBNAMES]
+                ev["text"]["pre"] = f"{name}{tuple(idx)}"
+                ev["text"]["post"] = ev["text"]["post"][:300]
+                ev["a"] = {"name": name, "t2": names[f"{tn.gs_amplitude}1"],
+                           "V": names[tn.eri],
+                           "axes": [ctx.index(x) for x in get_symbols(idx)],
+                           "sub": sub}
+                chk.add_event(ev)
+                chk.count("composite_events")
+    if len(chk.events) > first:
+        chk.judge_with_header(header, chk.events[first:])
+
     # ---- RE residuals: definition vs. derived residual (generic model) -----
     first = len(chk.events)
     re = GroundState(Operators("re"))
@@ -240,5 +296,8 @@ def run(chk):
              "on 4 occupied + 4 virtual orbitals); every exchange of two index "
              "names under which the tensor symbol of an intermediate is "
              "declared (anti)symmetric maps the definition onto +-itself in "
-             "value; RE residual definitions "
+             "value; the composite t2eri_* / t2sq intermediates equal, for "
+             "every index assignment, the contraction of the first-order "
+             "doubles amplitude with the integrals that the specification "
+             "states for their name (CompositeVal); RE residual definitions "
              "are compared in value with the derived residuals")
